@@ -227,6 +227,8 @@ int flush_pubsub_msgs(void *data, const char *key, void *value) {
         M_DEBUG("Destroying enqueued pubsub message for module '%s'.\n", mod->name);
         m_mem_unref(mm);
     }
+    /* Keep mod alive: the handler may deregister it */
+    m_mem_ref(mod);
     call_pubsub_cb(mod, flushed);
     if (poisonpilled && m_mod_is(mod, M_MOD_RUNNING | M_MOD_PAUSED)) {
         M_INFO("PoisonPilling '%s'.\n", mod->name);
@@ -241,6 +243,7 @@ int flush_pubsub_msgs(void *data, const char *key, void *value) {
     if (!stopping_mod) {
         fs_ctx_stopped(mod);
     }
+    m_mem_unref(mod);
     return 0;
 }
 
